@@ -530,7 +530,7 @@ class IfGoalGen:
         out, seen = [], set()
         pool = [var(v) for v in vs] + [self.consts[0]]
         for args in itertools.product(pool, repeat=n):
-            if len(out) >= 14:
+            if len(out) >= 9:
                 break
             if args in seen:
                 continue
